@@ -229,6 +229,17 @@ func batchRoundTrip(c *hx.Ctx, p protocol.Protocol, batch []*batchOp, now int64,
 	if err != nil {
 		return fail("GetTxnOperations failed on files written by PrepareTxnFiles: %v", err)
 	}
+	// a late reader: long after every anchoring window of the batch has closed (and long before any has opened) the files still
+	// read back - what was anchored in time stays anchored
+	for _, late := range []int64{1 << 40, 1} {
+		was := atomic.SwapInt64(&clock.now, late)
+		gotLate, lerr := v.Provider.GetTxnOperations(&txn.SidetreeTxn{AnchorString: info.AnchorString, Namespace: hx.Namespace, TransactionTime: 100, TransactionNumber: 1, ProtocolVersion: p.GenesisTime})
+		atomic.StoreInt64(&clock.now, was)
+		if lerr != nil || len(gotLate) != len(got) {
+			return fail("the batch files read back at cut time (%d operations) do not read back at node time %d: %d operations, err=%v", len(got), late, len(gotLate), lerr)
+		}
+	}
+	c.Count("late_read_backs")
 	want := append([]*batchOp{}, inc...)
 	sort.SliceStable(want, func(i, j int) bool { return typeRank[want[i].Type] < typeRank[want[j].Type] })
 	if len(got) != len(want) {
@@ -336,7 +347,7 @@ func countTypes(b []*batchOp) int {
 }
 
 func checkC13(c *hx.Ctx) {
-	c.Rule("batches of client-built operations through the REAL OperationHandler, gzip and OperationProvider over an in-memory CAS: all 4+16+64+256 type sequences of length <= 4 on distinct DIDs (exhaustive), the same sequences with repeated suffixes at every position, deactivate-only / update-only / single-operation / maximum-size batches, operations of different DIDs that reveal the same key, a protocol whose suffix algorithm (its first) differs from the algorithm the controllers hash with, batches with operations expired on a virtual clock (also all-expired), random mixes up to MaxOperationCount; every operation carries a unique marker; oracle: one operation per distinct suffix (the first queued) reads back with same type, suffix, JSON-equal request and embedded anchor origin, ordered create, recover, update, deactivate; anchor count = operations read back; included + deferred + expired = queued exactly once; every batch is also read back through the transaction's alternate sources by a node holding no file, and re-created with the k-th CAS write failing (once / permanently) for every k: error or an anchor string that reads back as the batch; batches cut by the REAL batch writer from the real in-memory queue with one anchor / CAS write failing (roll-back and second cut): over the run every queued operation reads back exactly once and the first queued operation of a DID before the others; non-trivial = batch with >= 2 operations; distinct = distinct batches")
+	c.Rule("batches of client-built operations through the REAL OperationHandler, gzip and OperationProvider over an in-memory CAS: all 4+16+64+256 type sequences of length <= 4 on distinct DIDs (exhaustive), the same sequences with repeated suffixes at every position, deactivate-only / update-only / single-operation / maximum-size batches, operations of different DIDs that reveal the same key, a protocol whose suffix algorithm (its first) differs from the algorithm the controllers hash with, batches with operations expired on a virtual clock (also all-expired), random mixes up to MaxOperationCount; every operation carries a unique marker; oracle: one operation per distinct suffix (the first queued) reads back with same type, suffix, JSON-equal request and embedded anchor origin, ordered create, recover, update, deactivate; anchor count = operations read back; included + deferred + expired = queued exactly once; every batch is read back again with the node's clock far past / far before every anchoring window, and through the transaction's alternate sources by a node holding no file, and re-created with the k-th CAS write failing (once / permanently) for every k: error or an anchor string that reads back as the batch; batches cut by the REAL batch writer from the real in-memory queue with one anchor / CAS write failing (roll-back and second cut): over the run every queued operation reads back exactly once and the first queued operation of a DID before the others; non-trivial = batch with >= 2 operations; distinct = distinct batches")
 	rng := c.Rng("pool")
 	type env struct {
 		p    protocol.Protocol
@@ -559,6 +570,8 @@ func checkC13(c *hx.Ctx) {
 		c.Floor("ok:"+t, 1)
 	}
 	c13ThroughWriter(c)
+	c13TwoWritersOneQueue(c)
+	c.Floor("runs_with_two_writers_on_one_queue", 10)
 	c.Floor("writer_runs_with_a_rolled_back_batch", 50)
 	c.Floor("all_expired_batches", 1)
 	c.Floor("alternate_source_reads", 500)
